@@ -5,4 +5,17 @@ package main
 func init() { families = append(families, factsProxy) }
 
 func factsProxy() {
+	// ---- C05: the three conditions the pruning theorems hinge on
+	px := parse("pkg/store/proxy.go")
+	emitStr("pruneTimeCond", "pkg/store/proxy.go storeMatches: the time-range test",
+		firstIfCond(body(fn(px, "", "storeMatches")), "storeMaxTime"))
+	emitStr("pruneLabelCond", "pkg/store/proxy.go LabelSetsMatch: when a matcher rejects a label set (lv := ls.Get(m.Name))",
+		firstIfCond(body(fn(px, "", "LabelSetsMatch")), "Matches"))
+	emitStr("pruneEmptySetsCond", "pkg/store/proxy.go LabelSetsMatch: no label set advertised",
+		firstIfCond(body(fn(px, "", "LabelSetsMatch")), "len(lset)"))
+	pr := parse("pkg/store/prometheus.go")
+	emitStr("pruneExtAgnosticCond", "pkg/store/prometheus.go matchesExternalLabels: matcher kept when the external labels do not have the name",
+		firstIfCond(body(fn(pr, "", "matchesExternalLabels")), "extValue"))
+	emitStr("pruneExtRejectCond", "pkg/store/prometheus.go matchesExternalLabels: request rejected",
+		firstIfCond(body(fn(pr, "", "matchesExternalLabels")), "tm.Matches"))
 }
